@@ -19,7 +19,11 @@ def register(PROPS):
                  'execution requests with DUE, echsx arms due - now for three positions of the clock and refuses a DUE in the past '
                  'with the documented journal entry without starting the job (DUE equal to now: refused or killed at once, never started without a timer).  Limits given as local times of two zones (DTSTART and DTEND with TZID, 3-4 events per file, every pattern of Europe/Berlin and America/New_York, five limits) must come out of echsq with the same span for every event; five limits whose DTSTART and DTEND are local times on the two sides of a DST switch of their zone (Berlin and New York, spring and autumn 2031, plus a control) must come out as the real time between them.  Real runs: jobs outliving a 1 s / 2 s limit die '
                  'within [limit, limit + 4 s] with the signal in the journal, a job finishing earlier is unaffected; this holds for every request of a '
-                 'stream of two or three requests handled by one echsx process (what one request leaves behind - handler, pending alarm - meets the next).',
+                 'stream of two or three requests handled by one echsx process (what one request leaves behind - handler, pending alarm - meets the next).  '
+                 'The termination record survives the company of other executors of the same user: with the journal handed to every echsx the way echsd does '
+                 '(a descriptor of its own, no O_APPEND, at the end as of start time), a run killed at its limit next to a run that started earlier or later, '
+                 'next to a not-run report, next to a second run killed by the same limit, and queueing for the journal lock while another writer appends, '
+                 'leaves exactly one complete entry per execution with X-SIGNAL:24 for the killed ones and nothing mangled.',
         'note': 'The end-to-end clause is "seconds armed in echsx == limit".  The hand-overs in between (text echsq sends, duration the '
                 'daemon holds, DURATION line of the execution request, echsx given the same limit in ISO form) are judged too, but '
                 'reported only for cases whose end-to-end clause fails, as a diagnosis of the hop that loses the limit.  The daemon side '
@@ -32,9 +36,9 @@ def register(PROPS):
             'quick': 'limits 1..180 s every second + 40 values from 5 min to 4 weeks (incl. 86399/86400/86401 s, 2^31 ms +- 1 s) x '
                      '{DTEND, DURATION as PTnS, PTnM, PTnH, PnD, PnW, PnDTnHnMnS with zeros, PTnMnS, PTnHnM, normalised} x {no sign, +} x '
                      '{single event, FREQ=DAILY;COUNT=3 (first two runs)}: 3540 chain cases; DUE = now + each of the 220 limits and DUE = now - '
-                     '{1 s .. 1 year} for now in {2030-06-15T12:00:00Z, 2031-01-15T08:30:00Z, 2032-02-28T23:59:30Z}: 681 cases; 4 real-time runs (two single requests, two streams)',
+                     '{1 s .. 1 year} for now in {2030-06-15T12:00:00Z, 2031-01-15T08:30:00Z, 2032-02-28T23:59:30Z}: 681 cases; 4 real-time runs (two single requests, two streams); 6 placements of 1-2 real executors (one at least killed at its limit) on one journal',
             'thorough': 'as quick with limits 1..1800 s every second (26k chain cases, 5.5k DUE cases) + 9 real-time runs '
-                        '(sleep 8 under 1 s and 2 s given as DURATION and DTEND; sleep 0 under 2 s; streams killed+killed, killed+unharmed+killed, unharmed+killed+killed)',
+                        '(sleep 8 under 1 s and 2 s given as DURATION and DTEND; sleep 0 under 2 s; streams killed+killed, killed+unharmed+killed, unharmed+killed+killed); the 6 shared-journal placements',
         },
         'targets': [os.path.join(_X, x) for x in ('echsx_shim.so', 'c14_chain')],
         'drivers': [
@@ -42,12 +46,14 @@ def register(PROPS):
             D('build/plain/exec/c14_chain', ['mode=due', 'maxsec=180'], ['mode=due', 'maxsec=1800'], label='due'),
             D('build/plain/exec/c14_chain', ['mode=zones'], label='zones', shards=4),
             D('harness/exec/c14_rt.py', ['set=quick'], [], label='real-time', interp=_PY, shards=1),
+            D('harness/exec/c12_journal.py', ['set=killed'], label='shared-journal', interp=_PY, shards=6),
         ],
         'assumptions': [
             'limits are whole seconds (neither DURATION nor the date-time forms used carry fractions); DTSTART/DTEND in UTC form',
             'DURATION spellings are generated from the strict RFC 5545 grammar (after H only M, after M only S); the internal hand-overs are read leniently (any ISO 8601 P[nW][nD][T[nH][nM][nS]])',
             'DUE equal to now: refused and killed-at-once are both accepted; starting the job without any timer is a violation',
             'the daemon-side callbacks are invoked directly in libev\'s order; the submitting user is the invoking user (uid 0 here), whose passwd entry supplies the default shell/home',
+            'shared journal: the order of the reports is placed by the driver (the earlier run is held until the later has reported; executors queue behind a stand-in that holds the fcntl lock until /proc/locks shows them waiting); two executors that report at the same instant without anybody holding the lock are not placed, which of two waiting executors gets the lock first is left to the kernel (the oracle does not depend on it)',
             'real-time part: the limit may be undercut by the time between arming and spawning (tolerance 0.1 s) and overrun by up to 4 s (shared machine)',
         ],
     }
